@@ -328,6 +328,7 @@ type renderCase struct {
 	Material string  `json:"material"`
 	AA       float64 `json:"aa"`
 	Conc     int     `json:"conc,omitempty"` // >= 2: that many goroutines call Render on the ONE renderer value at the same time
+	Log      bool    `json:"log,omitempty"`  // tracer / bidir: a progress LogFunc is installed (its own state is behind a mutex)
 }
 
 func genRenderCase(t *rapid.T) renderCase {
@@ -338,10 +339,21 @@ func genRenderCase(t *rapid.T) renderCase {
 	c.Cam = gen.Dir3(t, "cam").Unit().Scale(gen.F(t, 5, 8, "camdist"))
 	c.Light = gen.Dir3(t, "light").Unit().Scale(gen.F(t, 6, 9, "lightdist"))
 	c.Conc = []int{0, 2, 2, 3}[gen.Int(t, 0, 3, "conc")]
+	c.Log = gen.Int(t, 0, 1, "log") == 0
 	return c
 }
 
 func checkRender(c renderCase, o *kit.Obs) error {
+	// the progress callback keeps its own state behind a mutex (several Render calls may be in flight on one renderer
+	// value); whatever the library does around calling it is the library's business and is watched by the detector
+	var logMu sync.Mutex
+	logCalls := 0
+	logFunc := func(frac, rate float64) {
+		logMu.Lock()
+		logCalls++
+		logMu.Unlock()
+	}
+	_ = logCalls
 	o.Label("renderer:" + c.Renderer)
 	mesh := c.Obj.libMesh()
 	if mesh.NumTriangles() == 0 {
@@ -382,6 +394,10 @@ func checkRender(c renderCase, o *kit.Obs) error {
 	case "tracer":
 		r := &render3d.RecursiveRayTracer{Camera: cam, Lights: lights, MaxDepth: c.Depth, NumSamples: c.Samples, Antialias: c.AA,
 			MinSamples: 2, MaxStddev: 0.05}
+		if c.Log {
+			r.LogFunc = logFunc
+			o.Label("progress-log")
+		}
 		render = func(img *render3d.Image) { r.Render(img, scene) }
 	case "bidir":
 		lm := model3d.NewMeshIcosphere(centre.Add(m3.C3(c.Light)), 1.5, 1)
@@ -389,6 +405,10 @@ func checkRender(c renderCase, o *kit.Obs) error {
 		scene = render3d.JoinedObject{obj, light}
 		r := &render3d.BidirPathTracer{Camera: cam, Light: light, MaxDepth: c.Depth + 1, MinDepth: 1, NumSamples: c.Samples, Antialias: c.AA,
 			RouletteDelta: 0.05, PowerHeuristic: 2}
+		if c.Log {
+			r.LogFunc = logFunc
+			o.Label("progress-log")
+		}
 		render = func(img *render3d.Image) { r.Render(img, scene) }
 	}
 	// which pixels see anything (primary rays; only meaningful without antialiasing jitter)
